@@ -48,7 +48,7 @@ CHECKS = {
         "symmetry, transitivity, eq=>hash, unequal=>different token, pickle/copy clauses on the observed matrices and compares == with the field-wise model.",
    ref="5/C19", note=TB + "pyproj's hash/eq of key objects is tabulated as an environment table; cache clearing stands for a fresh interpreter; transformer correctness judged on one probe point per class against pyproj"),
  "C04": dict(
-   technique="TLA+ tiling / block-mosaic model (Tiling, Blocks) checked by TLC; complete answer tables of the real tiling objects and assembled windows validated by TLC against partition predicates and the mosaic model",
+   technique="TLA+ tiling / block-mosaic model (Tiling, Blocks) checked by TLC, regular 1-d tiling rule proved for unbounded sizes by an Apalache inductive invariant (TilingInd); complete answer tables of the real tiling objects and assembled windows validated by TLC against partition predicates and the mosaic model",
    text="TLC checks that the 1-d tiling model (regular: ceil-division with clamped last tile; variable: cumulative offsets; crop = chunk slicing) is an exact partition with inverse lookup "
         "for all small axes, chunk tuples and crops, and emits tilings x crops x parent grids; every answer of the real Tiles / VariableSizedTiles / GeoboxTiles (each tile region, negative "
         "indices, tile shapes, chunks, lookup of every pixel, every tile-index slice, crop()/clip() to depth 2, tile GeoBoxes) is logged and TLC evaluates disjointness, exact cover, "
